@@ -232,3 +232,23 @@ def flat(block):
                 yield from flat(st.orelse)
             elif b_leaves and o_leaves and isinstance(st.orelse[-1], (ast.Raise,)) and not isinstance(st.body[-1], ast.Raise):
                 yield from flat(st.body)
+
+
+def guard_atoms(test, taken, ren=None):
+    """Atomic conditions known to hold when `test` is taken / not taken, as texts ("X" or "not X"): `not` is pushed inwards, a taken
+    `and` and a not-taken `or` are split (the other directions give one composite text)."""
+    t, pol = test, taken
+    while isinstance(t, ast.UnaryOp) and isinstance(t.op, ast.Not):
+        t, pol = t.operand, not pol
+    if isinstance(t, ast.BoolOp) and ((isinstance(t.op, ast.And) and pol) or (isinstance(t.op, ast.Or) and not pol)):
+        out = []
+        for v in t.values:
+            out += guard_atoms(v, pol, ren)
+        return out
+    if isinstance(t, ast.Compare) and len(t.ops) == 1 and not pol:
+        flip = {ast.In: ast.NotIn, ast.NotIn: ast.In, ast.Is: ast.IsNot, ast.IsNot: ast.Is, ast.Eq: ast.NotEq, ast.NotEq: ast.Eq}
+        if type(t.ops[0]) in flip:
+            t = ast.Compare(left=t.left, ops=[flip[type(t.ops[0])]()], comparators=t.comparators)
+            pol = True
+    txt = ast.unparse(alpha(t, ren) if ren else t)
+    return [txt if pol else "not " + txt]
